@@ -46,3 +46,9 @@ json.dump({"comment": "reference accept conditions (function returns Ok) of fiel
            "functions": {p: {"f": guards.to_json(f), "show": guards.show(f)[:3000]} for p, (f, b) in sorted(acc.items())}},
           open(os.path.join(HERE, "spec", "accept_formulas.json"), "w"), indent=1)
 print("wrote", len(acc), "accept formulas")
+
+st = accept.extract_stores(F)
+json.dump({"comment": "reference of what each accepting exit of a parser delivers (component = expression over the input)",
+           "functions": {p: sig for p, (sig, b) in sorted(st.items())}},
+          open(os.path.join(HERE, "spec", "store_maps.json"), "w"), indent=1)
+print("wrote", len(st), "store maps")
